@@ -88,6 +88,9 @@ where
     // `fill_buf` can end in the middle of a multibyte character.
     let mut bytes = mem::take(dst).into_bytes();
 
+    // The field occupies `bytes[start..]`.
+    let start = bytes.len();
+
     loop {
         let src = match reader.fill_buf() {
             Ok(src) => src,
@@ -116,7 +119,9 @@ where
 
     let is_eol = matches!(r#match, Some(LINE_FEED));
 
-    if is_eol && bytes.ends_with(&[CARRIAGE_RETURN]) {
+    // The carriage return of a CRLF line ending belongs to this field. When this field is empty,
+    // a carriage return at the end of `bytes` is the last byte of the previous field.
+    if is_eol && bytes[start..].ends_with(&[CARRIAGE_RETURN]) {
         bytes.pop();
     }
 
